@@ -296,6 +296,17 @@ func (fs *FileSink) pruneFiles() error {
 		return err
 	}
 
+	// The glob also matches files whose name merely starts with this sink's
+	// base name (audit-errors-<timestamp>.log for audit.log), which belong to
+	// somebody else: only <base>-<digits><ext> are this sink's rotated files.
+	own := matches[:0]
+	for _, m := range matches {
+		if isRotatedName(pattern, filepath.Base(m)) {
+			own = append(own, m)
+		}
+	}
+	matches = own
+
 	// Stort the strings as filepath.Glob does not publicly guarantee that files
 	// are sorted, so here we add an extra defensive sort.
 	sort.Strings(matches)
@@ -307,6 +318,25 @@ func (fs *FileSink) pruneFiles() error {
 		}
 	}
 	return nil
+}
+
+// isRotatedName reports whether name is the pattern with a timestamp (digits
+// only) in place of its %s.
+func isRotatedName(pattern, name string) bool {
+	parts := strings.SplitN(pattern, "%s", 2)
+	if len(parts) != 2 || !strings.HasPrefix(name, parts[0]) || !strings.HasSuffix(name, parts[1]) {
+		return false
+	}
+	stamp := name[len(parts[0]) : len(name)-len(parts[1])]
+	if stamp == "" {
+		return false
+	}
+	for _, r := range stamp {
+		if r < '0' || r > '9' {
+			return false
+		}
+	}
+	return true
 }
 
 func (fs *FileSink) fileNamePattern() string {
